@@ -16,8 +16,10 @@ network-wide amplifier range [f_min, f_max] (indices n_min..n_max, 6.25 GHz each
 service must lie completely inside [n(f_min + 25 GHz), n(f_max - 25 GHz)] = [n_min + 4, n_max - 4].
 
 Two sub-checks share the code:
-  history      generator excludes, by construction, the three input shapes on which the unchanged tree is known to
-               fail (so that the search continues behind them and mutants are visible);
+  history      generator excludes, by construction, the input shapes on which the unchanged tree is known to fail
+               (one-OMS path without reverse path -> made bidirectional; user-fixed N outside the map -> moved inside;
+               bandwidth always >= what the user-fixed M can carry, so no fixed slot is superfluous and no leftover is
+               smaller than a channel), so that the search continues behind them and mutants are visible;
   history-any  no exclusion: rediscovers the recorded findings.
 """
 import copy
@@ -32,7 +34,8 @@ PROPERTY = 'C14'
 RULE = ('Hypothesis-generated ROADM mesh (2-4 sites, 1-3 spans per direction, per-link amplifier band class: auto, full C, '
         'two reduced-C models, C+L multiband; generated band edges incl. off-grid values) designed by the real '
         'auto-design + build_oms_list, then a history of 1-9 steps: pth_assign_spectrum with 1 request or a batch of '
-        '2-3, or a direct OMS.assign_spectrum pre-occupation. Requests are real PathRequest objects from '
+        '2-3, a direct OMS.assign_spectrum pre-occupation, or an "edge" step (the path is filled so that a window of '
+        '2M-2..2M+2 slots remains at the top or bottom of what is still allowed, then M is requested). Requests are real PathRequest objects from '
         'requests_from_json (fixed mode, or mode left open and filled in as compute_path_with_disjunction does), k-th '
         'shortest ROADM route, reverse path from find_reversed_path or [], 1-4 frequency slots with any mix of fixed/free '
         'N and M (aligned, odd, too small, huge), bandwidth sufficient or not, spectrum filled by large requests. '
@@ -319,8 +322,9 @@ class _Model:
         a = set.intersection(*sets) if sets else set()
         return {n for n in a if self.g_lo <= n <= self.g_hi}
 
-    def compare(self, oms_list):
+    def compare(self, oms_list, occ=None):
         """list of (oms index, n, expected, got) where the real map differs from the model"""
+        occ = self.occ if occ is None else occ
         diffs = []
         for i, o in enumerate(oms_list):
             bm = o.spectrum_bitmap
@@ -329,7 +333,7 @@ class _Model:
                                                                f'len {len(bm.freq_index)}/{len(bm.bitmap)}'))
                 continue
             for n, got in zip(bm.freq_index, bm.bitmap):
-                exp = self.BV.OCCUPIED if n in self.occ[i] else self.initial[i][n]
+                exp = self.BV.OCCUPIED if n in occ[i] else self.initial[i][n]
                 if got is not exp:
                     diffs.append((i, n, exp.name, got.name))
         return diffs
@@ -582,6 +586,37 @@ def run(case, ctx):
                                   f'step {s_no}: {e}; (slots, slots needed for the bandwidth) = {over[:2]}')
                     return
                 raise
+            # pass 1 - state: the maps must equal the previous state + the slots of the requests reported as accepted,
+            # on every OMS of their path and reverse path (a blocked request contributes nothing). Judged first: once
+            # the state is wrong, later requests of the same call are served from a wrong state.
+            outcomes = ['blocked' if (m[0]['preblocked'] or getattr(q, 'blocking_reason', None) is not None) else 'accepted'
+                        for q, m in zip(rqs, metas)]
+            tentative = [set(x) for x in model.occ]
+            for q, m, o in zip(rqs, metas, outcomes):
+                if o == 'accepted' and isinstance(q.N, list) and isinstance(q.M, list) and len(q.N) == len(q.M) \
+                        and all(type(x) is int for x in q.N + q.M):
+                    for n, w in zip(q.N, q.M):
+                        for i in m[1]:
+                            tentative[i] |= set(range(n - w, n + w))
+            diffs = model.compare(oms_list, tentative)
+            if diffs:
+                touched = {d[0] for d in diffs}
+                extra_only = all(d[3] == 'OCCUPIED' for d in diffs)
+                culprits = [m for m, o in zip(metas, outcomes)
+                            if o == 'blocked' and not m[0]['preblocked'] and set(m[1]) & touched]
+                what = f'step {s_no} outcomes {outcomes} requests {[m[0]["slots"] for m in metas]} ' \
+                       f'first differences (oms, n, expected, got): {[(model.key_of[d[0]],) + d[1:] for d in diffs[:6]]}'
+                if extra_only and culprits:
+                    # slots became occupied on an OMS that only blocked request(s) of this call could have touched,
+                    # or that no accepted request accounts for
+                    aliased = any(len(m[1]) == 1 and not m[0]['rev'] for m in culprits)
+                    ctx.violation('blocked:spectrum-changed:'
+                                  + ('single-oms-path-no-reverse' if aliased else 'other-path'), what)
+                else:
+                    ctx.violation('state:occupancy-differs-from-union-of-accepted:'
+                                  + ('slots-occupied-without-service' if extra_only else 'accepted-slots-not-recorded'), what)
+                return      # the model no longer mirrors the real state
+            # pass 2 - every request against the model, in the order of the call
             outcomes = []
             for rq, (r, oms_ids, n_hops) in zip(rqs, metas):
                 tag = f'step {s_no} request {rq.request_id} oms {[model.key_of[i] for i in oms_ids]}'
@@ -601,24 +636,8 @@ def run(case, ctx):
                     if shared_before:
                         nontrivial = True
                         ctx.label('blocked-after-accepted-on-shared-oms')
-            diffs = model.compare(oms_list)
-            if diffs:
-                touched = {d[0] for d in diffs}
-                extra_only = all(d[3] == 'OCCUPIED' for d in diffs)
-                culprits = [m for m, o in zip(metas, outcomes)
-                            if o == 'blocked' and not m[0]['preblocked'] and set(m[1]) & touched]
-                what = f'step {s_no} outcomes {outcomes} requests {[m[0]["slots"] for m in metas]} ' \
-                       f'first differences (oms, n, expected, got): {[(model.key_of[d[0]],) + d[1:] for d in diffs[:6]]}'
-                if extra_only and culprits:
-                    # slots became occupied on an OMS that only blocked request(s) of this call could have touched,
-                    # or that no accepted request accounts for
-                    aliased = any(len(m[1]) == 1 and not m[0]['rev'] for m in culprits)
-                    ctx.violation('blocked:spectrum-changed:'
-                                  + ('single-oms-path-no-reverse' if aliased else 'other-path'), what)
-                else:
-                    ctx.violation('state:occupancy-differs-from-union-of-accepted:'
-                                  + ('slots-occupied-without-service' if extra_only else 'accepted-slots-not-recorded'), what)
-                return      # the model no longer mirrors the real state
+            if not ctx.violations and model.compare(oms_list):
+                raise RuntimeError('harness: model and tentative state disagree')
         ctx.nontrivial(nontrivial)
     finally:
         netgen.reset_sim_params()
